@@ -1,6 +1,8 @@
 """C15 - dump output honours the formatting options (plumbing / normalisation / funnel clauses)."""
 import sys
 
+from sa import crosslist as XL
+from sa import rules_r6b as R6B
 from sa import rules_r6 as R6
 from sa import report, rules_opts as RO, rules_emit as RE
 from sa import rules_extra as RX
@@ -34,6 +36,9 @@ def run(ctx, repo):
     ctx.call(R6.r_bom_for_utf16, repo)
     ctx.call(R6.r_tag_directive_every_handle, repo)
     ctx.call(RE.r_escape_inverse, repo)
+    ctx.call(R6B.r_option_immutable, repo, ['emitter.Emitter', 'serializer.Serializer', 'representer.BaseRepresenter'])
+    ctx.call(RX.r_simple_key_fits, repo)
+    XL.emit_readable(ctx, repo)
 
 
 if __name__ == '__main__':
